@@ -308,6 +308,7 @@ pub fn from_array_case<const N: usize, const M: usize, P: Pad>(
 /// `iter.collect::<CircularBuffer<N, _>>()` with `k` items
 pub fn from_iter_case<const N: usize, P: Pad>(
     k: usize,
+    hint: u8,
     fault: Option<(FpKind, u32)>,
     ctx: &mut Ctx,
     followups: &[Op],
@@ -327,7 +328,7 @@ pub fn from_iter_case<const N: usize, P: Pad>(
         fp_arm(kk, at);
     }
     let r = catch_unwind(AssertUnwindSafe(|| {
-        let it = FeedIter { items: &mut items[..], pos: 0 };
+        let it = FeedIter { items: &mut items[..], pos: 0, hint };
         it.collect::<Buf<N, P>>()
     }));
     let fp = fp_disarm();
